@@ -339,6 +339,10 @@ func (l *log) GetByTime(start time.Time) (message.Message, error) {
 
 		switch msg, err := rdr.GetByTime(ts, tctx); err {
 		case nil:
+			if i > 0 && msg.Offset == rdr.GetOffset() {
+				// first message of this segment, an older segment might end with the same time
+				continue
+			}
 			return msg, nil
 		case index.ErrTimeIndexEmpty:
 			// only the head segment can be empty, look in the older ones
